@@ -23,3 +23,98 @@ def outcome_class(c, obs):
 
 def classify(c, obs, why):
     return None
+
+
+class Resp:
+    """responses written in parts mixed with notifications, at hap.Connection (model: Model/Respond.v)"""
+    @staticmethod
+    def nontrivial(c):
+        return " N:" in c["line"] and " P:" in c["line"]
+
+    @staticmethod
+    def outcome_class(c, obs):
+        return "resp/" + ("pending" if not obs.endswith("pending=") else "drained")
+
+    @staticmethod
+    def classify(c, obs, why):
+        return None
+
+    @staticmethod
+    def oracle(c, obs):
+        """independent of the model: scanning what reached the socket, between two parts of one response there is no
+        notification; every notification made outside a request or before a finished one arrived exactly once, in order"""
+        if not obs.startswith("out="):
+            return "harness failure: " + obs[:80]
+        out = [x for x in obs.split(" ")[0][4:].split(",") if x]
+        pend = [x for x in obs.split(" pending=")[1].split(",") if x]
+        ops = c["line"].split(" ")[1:]
+        want_notes = ["N:" + o[2:] for o in ops if o.startswith("N:")]
+        got_notes = [x for x in out if x.startswith("N:")] + ["N:" + x for x in pend]
+        if got_notes != want_notes:
+            return "notifications made %s, written / kept %s (each exactly once, in order)" % (len(want_notes), len(got_notes))
+        if [x for x in out if x.startswith("P:")] != ["P:" + o[2:] for o in ops if o.startswith("P:")]:
+            return "the parts of the responses are not what the server wrote"
+        # which response each written part belongs to
+        resp, k, owner = 0, 0, []
+        for o in ops:
+            if o == "B":
+                resp += 1
+            elif o.startswith("P:"):
+                owner.append(resp)
+        last, noted = None, False
+        for x in out:
+            if x.startswith("N:"):
+                noted = True
+            else:
+                if last == owner[k] and noted:
+                    return "a notification was written between two parts of response %d (the controller cannot read the response any more)" % owner[k]
+                last, noted = owner[k], False
+                k += 1
+        return None
+
+
+def gen_resp(rng, tier):
+    cases = []
+    for i in range(60 if tier == "quick" else 1500):
+        ops, inside = [], False
+        for _ in range(rng.randrange(2, 14)):
+            r = rng.random()
+            if not inside:
+                if r < 0.4:
+                    ops.append("B")
+                    inside = True
+                else:
+                    ops.append("N:4e" + bytes(rng.getrandbits(8) for _ in range(rng.randrange(0, 5))).hex())
+            else:
+                if r < 0.45:
+                    ops.append("P:50" + bytes(rng.getrandbits(8) for _ in range(rng.randrange(0, 6))).hex())
+                elif r < 0.8:
+                    ops.append("N:4e" + bytes(rng.getrandbits(8) for _ in range(rng.randrange(0, 5))).hex())
+                else:
+                    ops.append("F")
+                    inside = False
+        if rng.random() < 0.7 and inside:
+            ops.append("F")
+        cases.append({"id": "rs%d" % i, "kind": "resp", "line": "resp " + " ".join(ops)})
+    return cases
+
+
+def run(res, a):
+    import json, sys
+    from .. import core
+    mod = sys.modules[__name__]
+    res.rule = RULE + ("; additionally, at hap.Connection: histories of request starts, response parts, request ends and notifications "
+                       "(what reaches the socket, what is kept back), against Model/Respond.v")
+    res.assumptions = list(ASSUMPTIONS)
+    core.build_everything(res, ID, extra_files=EXTRA_FILES + ("Proofs/RespondProofs.v",))
+    res.trusted += list(TRUSTED)
+    if a.replay:
+        rep = json.load(open(a.replay))
+        if rep["case"].startswith("resp "):
+            core.run_correspondence(res, "connw", [{"id": "replay", "line": rep["case"], "kind": "resp"}], Resp, corr_name="correspondence model<->code, family connw (responses and notifications)")
+        else:
+            core.run_correspondence(res, FAMILY, [{"id": "replay", "line": rep["case"], "kind": "replay", "meta": rep.get("meta") or {}}], mod)
+        return
+    rng = core.rng_for(ID, res.seed)
+    core.run_correspondence(res, FAMILY, core.load_corpus(FAMILY) + gen(rng, a.tier), mod)
+    core.run_correspondence(res, "connw", gen_resp(rng, a.tier), Resp, corr_name="correspondence model<->code, family connw (responses and notifications)")
